@@ -1,6 +1,7 @@
 from .common import COMMON_ASSUME
 
 CFG = {
+    "extra_props_modules": ["RpmVerif.Props.C02Bytes"],
     "props_module": "RpmVerif.Props.C02",
     "required_theorems": ["RpmVerif.C02.verify_ok_sound", "RpmVerif.C02.verify_log_faithful", "RpmVerif.C02.verify_data_right",
                           "RpmVerif.C02.verify_first_reject", "RpmVerif.C02.verify_total", "RpmVerif.C02.verify_no_sig_is_error",
@@ -15,7 +16,13 @@ CFG = {
                           "RpmVerif.C02.pgp_verifier_sound_parsed", "RpmVerif.C02.pgp_verifier_no_signature",
                           "RpmVerif.C02.pgp_verifier_ignores_trailing", "RpmVerif.C02.pgp_verifier_parsed_eq",
                           "RpmVerif.C02.issuerOk_of_single_packet", "RpmVerif.C02.builderTag_of_single_packet",
-                          "RpmVerif.C02.scheme_ignores_trailing"],
+                          "RpmVerif.C02.scheme_ignores_trailing",
+                          # echo_signature in place (AUDIT2 a10)
+                          "RpmVerif.C02.verify_echo_eq", "RpmVerif.C02.echo_total", "RpmVerif.C02.verify_total_echo",
+                          # bytes level, library-signed packages (Props/C02Bytes.lean; AUDIT2 c1, c2)
+                          "RpmVerif.C02.writeHeader_injective", "RpmVerif.C02.parse_of_prefix", "RpmVerif.C02.tamper_rejected_value",
+                          "RpmVerif.C02.tamper_rejected_bytes", "RpmVerif.C02.signOp_libSigned", "RpmVerif.C02.verify_of_signedSig",
+                          "RpmVerif.C02.binds_of_scheme", "RpmVerif.C02.tamper_rejected_build_sign"],
     "trivial_branches": ["orig", "orig-parse-err"],
     "rule": "(a) recording implementation of the public Verifying trait (scripted accept/reject pattern: i-th consult accepted iff bit i; logs "
             "length+FNV of the data read to the end, length+FNV of the signature, verdict) on hand-encoded packages (pkggen: 3+ main-header "
